@@ -84,13 +84,13 @@ Fixpoint fpow_free (tys : list ty) (e : expr) : bool :=
   | EPow a b => fpow_free tys a && fpow_free tys b && match ety tys a with Some (TI _) => true | _ => false end
   | EArith op a b =>
       fpow_free tys a && fpow_free tys b &&
-      match op, ety tys a with Mod, Some (TF _) => false | _, _ => true end
+      match op, ety tys a with AMod, Some (TF _) => false | _, _ => true end
   | ECmp _ a b | EAnd a b | EOr a b => fpow_free tys a && fpow_free tys b
   end.
 Fixpoint fpow_free_s (tys : list ty) (s : stmt) : bool :=
   match s with
   | SDecl _ _ e | SAssign _ e | SReturn e => fpow_free tys e
-  | SCompound i op e => fpow_free tys e && match op, nth_error tys i with Mod, Some (TF _) => false | _, _ => true end
+  | SCompound i op e => fpow_free tys e && match op, nth_error tys i with AMod, Some (TF _) => false | _, _ => true end
   | SIf c th el => fpow_free tys c && fpow_free_b tys th && fpow_free_e tys el
   end
 with fpow_free_b (tys : list ty) (b : block) : bool :=
